@@ -54,7 +54,7 @@ def _neg(d, idx, n):
     return idx - n if d.bool() else idx
 
 
-@subcheck(SUBCHECKS, 'psd_layouts', quick=2200, thorough=36000)
+@subcheck(SUBCHECKS, 'psd_layouts', quick=2200, thorough=36000, fuzz=4000)
 def psd_layouts(d, ctx):
     f = _psd()
     lead = tuple(d.int(1, 3) for _ in range(d.int(0, 3)))
